@@ -11,9 +11,9 @@ DECODES = [[a, f, p] for a in range(4) for f in range(3) for p in range(3)]
 
 
 def scenario(sid, steps, framing="tcp", queue=16, max_timeouts=0, retry=(1000, 8000), decode=(0, 0, 0),
-             mode="session", tag=""):
+             mode="session", tag="", txid0=0):
     return {"id": sid, "mode": mode, "framing": framing, "queue": queue, "max_timeouts": max_timeouts,
-            "retry": list(retry), "decode": list(decode), "steps": steps, "tag": tag}
+            "retry": list(retry), "decode": list(decode), "steps": steps, "tag": tag, "txid0": txid0}
 
 
 def cmd(kind, **kw):
@@ -89,6 +89,9 @@ def reply_variants(rng, st, thorough=False):
     codes = range(256) if thorough else sorted(set([0, 1, 2, 3, 4, 5, 6, 7, 8, 9, 10, 11, 12, 0x80, 0xFF] + [rng.randrange(256) for _ in range(4)]))
     for c in codes:
         out.append((f"exc{c}", [fc + 128, c]))
+    # the exception form of another (or of no) function is not an exception reply to this request
+    for g in sorted(set([1, 2, 3, 4, 5, 6, 15, 16, 0, 0x2B, 0x7F]) - {fc}):
+        out.append((f"foreign-exc-{g}", [g | 0x80, rng.choice([1, 2, 3, 4])]))
     out.append(("exc-short", [fc + 128]))
     out.append(("exc-long", [fc + 128, 2, 0]))
     out.append(("exc-long2", [fc + 128, 2, 1, 2, 3]))
@@ -352,6 +355,20 @@ def gen_c10(rng, n, thorough=False):
                 steps.append(cmd("abort"))
         scs.append(scenario(k, steps, framing=framing, queue=queue, max_timeouts=maxto,
                             decode=rng.choice(DECODES), tag="c10-random"))
+    # a peer that keeps sending frames which are not the reply must not keep a request pending
+    for timeout in (10, 100):
+        for period in (timeout // 2, timeout - 1, 3):
+            steps = [cmd("enable")]
+            st = rand_request(rng, 1, timeout=timeout, unit=1)
+            st2 = rand_request(rng, 2, timeout=timeout, unit=1)
+            steps += [st, st2]
+            t = 0
+            while t < 3 * timeout:
+                steps.append(tick(period))
+                t += period
+                steps.append(reply(good_reply(rng, st), unit=1, txrel=-5))
+            steps += [cmd("shutdown")]
+            scs.append(scenario(len(scs), steps, framing="tcp", queue=16, max_timeouts=0, tag="c10-foreign-frames-forever"))
     return scs
 
 
@@ -387,6 +404,24 @@ def gen_c11(rng, thorough=False):
                     steps.append(reply(good_reply(rng, st), unit=1, txrel=-1))  # late reply again, now stale by 1
                     steps.append(reply(good_reply(rng, st2), unit=1))
             scs.append(scenario(len(scs), steps, queue=16, tag=f"c11-{when}"))
+    # across the 16-bit wrap (the harness starts the counter shortly before it): late replies to the requests
+    # around the wrap must not be accepted by their successors
+    for txid0 in (65530, 65535, 65533):
+        steps = [cmd("enable")]
+        prev = None
+        for i in range(12):
+            st = rand_request(rng, i + 1, timeout=20, unit=1)
+            steps.append(st)
+            mode = rng.choice(["ok", "timeout", "late-then-ok"]) if prev else "ok"
+            if mode == "ok":
+                steps.append(reply(good_reply(rng, st), unit=1))
+            elif mode == "timeout":
+                steps.append(tick(20))
+            else:
+                steps.append(reply(good_reply(rng, prev), unit=1, txrel=-1))
+                steps.append(reply(good_reply(rng, st), unit=1))
+            prev = st
+        scs.append(scenario(len(scs), steps, tag="c11-wrap-near", txid0=txid0))
     # invalid requests taken from the queue still advance the id
     steps = [cmd("enable")]
     r = 0
@@ -514,6 +549,30 @@ def gen_c12(rng, thorough=False):
                 st = rand_request(rng, 100 + i, timeout=20, unit=1)
                 steps += [st, tick(20)]
             scs.append(scenario(len(scs), steps, max_timeouts=N, tag=f"c12-limit{N}"))
+    # the count belongs to one connection: a timeouts, the connection ends for another reason, then it takes
+    # exactly N timeouts on the new connection
+    for N in (2, 3):
+        for a in range(1, N):
+            for how in ("eof", "garbage", "werr", "disable"):
+                steps = [cmd("enable")]
+                r = 0
+                for _ in range(a):
+                    r += 1
+                    steps += [rand_request(rng, r, timeout=10, unit=1), tick(10)]
+                if how == "eof":
+                    steps.append({"op": "eof"})
+                elif how == "garbage":
+                    steps.append(peer([0, 0, 0, 9, 0, 0, 0, 0]))
+                elif how == "werr":
+                    r += 1
+                    steps += [{"op": "werr", "kind": "BrokenPipe"}, rand_request(rng, r, timeout=10, unit=1)]
+                else:
+                    steps.append(cmd("disable"))
+                steps += [cmd("new_conn"), cmd("enable")]
+                for _ in range(N + 1):
+                    r += 1
+                    steps += [rand_request(rng, r, timeout=10, unit=1), tick(10)]
+                scs.append(scenario(len(scs), steps, max_timeouts=N, tag=f"c12-count-per-connection-{how}"))
     # a partial frame precedes a disconnect; the next connection's timely replies must succeed
     for cut in (1, 3, 6, 7, 9):
         for how in ("eof", "rerr"):
@@ -661,3 +720,129 @@ def with_decode_variants(rng, scs, positions=2, all_levels=False):
             c["tag"] = sc["tag"] + f"+setdec@{p}"
             out.append(c)
     return out
+
+
+# ------------------------------------------------------------------ E3: the whole channel task (mode "task")
+def conn(res):
+    return {"op": "connector", "res": res}
+
+
+def gen_task_random(rng, n, sid0=0):
+    scs = []
+    for k in range(n):
+        rmin = rng.choice([1, 10, 100, 1000])
+        rmax = rmin * rng.choice([1, 2, 3, 8])
+        maxto = rng.choice([0, 0, 1, 2])
+        steps = []
+        r = 0
+        last = None
+        for _ in range(rng.randint(4, 45)):
+            x = rng.random()
+            if x < 0.25:
+                r += 1
+                last = rand_request(rng, r, timeout=rng.choice([10, 50]), unit=1)
+                steps.append(last)
+            elif x < 0.38:
+                steps.append(conn(rng.choice(["ok", "ok", "err"])))
+            elif x < 0.50:
+                steps.append(cmd(rng.choice(["enable", "enable", "disable"])))
+            elif x < 0.68:
+                steps.append(tick(rng.choice([1, 9, 10, 50, rmin - 1 if rmin > 1 else 1, rmin, 2 * rmin, rmax, rmax + 1, 4 * rmax])))
+            elif x < 0.76 and last:
+                steps.append(reply(good_reply(rng, last), unit=1, txrel=rng.choice([0, 0, 0, -1])))
+            elif x < 0.82:
+                steps.append({"op": rng.choice(["eof", "rerr", "werr"]), "kind": "ConnectionReset"})
+            elif x < 0.86:
+                steps.append(peer([rng.randrange(256) for _ in range(rng.choice([3, 7, 9, 40]))]))
+            elif x < 0.90:
+                steps.append(cmd("decode", level=rng.choice(DECODES)))
+            elif x < 0.93:
+                steps.append(cmd("shutdown"))
+            elif x < 0.95:
+                steps.append(cmd("drop"))
+            elif x < 0.96:
+                steps.append(cmd("abort"))
+        scs.append(scenario(sid0 + k, steps, mode="task", queue=rng.choice([1, 2, 16]), max_timeouts=maxto,
+                            retry=(rmin, rmax), decode=rng.choice(DECODES), tag="task-random"))
+    return scs
+
+
+def gen_c13(rng, thorough=False):
+    scs = []
+    # every command / fault at every life-cycle location
+    locations = {
+        "disabled": [],
+        "connecting": [cmd("enable")],
+        "wait-failed": [cmd("enable"), conn("err")],
+        "connected-idle": [cmd("enable"), conn("ok")],
+        "connected-await": [cmd("enable"), conn("ok"), submit(90, 3, 1, 0, 1, (), 1000)],
+        "wait-disconnect": [cmd("enable"), conn("ok"), {"op": "eof"}],
+        "disabled-again": [cmd("enable"), conn("ok"), cmd("disable")],
+    }
+    events = {
+        "submit": [submit(1, 3, 1, 0, 1, (), 50), submit(2, 6, 1, 0, 1, [5], 50, "callback")],
+        "enable": [cmd("enable")],
+        "disable": [cmd("disable")],
+        "disable-enable": [cmd("disable"), cmd("enable")],
+        "decode": [cmd("decode", level=[3, 2, 2])],
+        "shutdown": [cmd("shutdown")],
+        "drop": [cmd("drop")],
+        "abort": [cmd("abort")],
+        "conn-ok": [conn("ok")],
+        "conn-err": [conn("err")],
+        "eof": [{"op": "eof"}],
+        "garbage": [peer([1, 2, 3, 4, 5, 6, 7, 8, 9])],
+        "werr+submit": [{"op": "werr", "kind": "BrokenPipe"}, submit(3, 3, 1, 0, 1, (), 50)],
+        "tick-min": [tick(100)],
+        "queued-behind-shutdown": [cmd("shutdown"), submit(4, 3, 1, 0, 1, (), 50), submit(5, 3, 1, 0, 1, (), 50)],
+    }
+    tail = [submit(50, 3, 1, 0, 1, (), 50), tick(100), conn("ok"), submit(51, 3, 1, 0, 1, (), 50), tick(50), tick(300), cmd("shutdown"),
+            submit(52, 3, 1, 0, 1, (), 50)]
+    for ln, pre in locations.items():
+        for en, evs in events.items():
+            steps = [dict(x) for x in pre] + [dict(x) for x in evs] + [dict(x) for x in tail]
+            scs.append(scenario(len(scs), steps, mode="task", retry=(100, 400), queue=rng.choice([2, 16]),
+                                max_timeouts=rng.choice([0, 1]), tag=f"c13-{ln}-{en}"))
+    scs += gen_task_random(rng, 1500 if thorough else 250, sid0=len(scs))
+    return scs
+
+
+def gen_c14(rng, thorough=False):
+    scs = []
+    grid = [(1, 1), (1, 8), (10, 15), (100, 100), (100, 250), (100, 800), (1000, 60000), (3, 1000)]
+    for rmin, rmax in grid:
+        # k failed connects in a row, waiting exactly delay-1 then 1 each time
+        def wait(d):
+            return ([tick(d - 1)] if d > 1 else []) + [tick(1)]
+        for pattern in ("fail*8", "fail3-ok-fail3", "fail2-ok-eof-fail2", "ok-eof-ok-eof", "fail4-disable-enable-fail2",
+                        "fail2-ok-garbage-fail3", "fail3-ok-maxtimeouts-fail2"):
+            steps = [cmd("enable")]
+            cur = rmin
+            for tok in pattern.split("-"):
+                if tok.startswith("fail"):
+                    k = int(tok[4:].replace("*", ""))
+                    for _ in range(k):
+                        steps.append(conn("err"))
+                        steps += wait(cur)
+                        cur = min(2 * cur, rmax)
+                elif tok == "ok":
+                    steps.append(conn("ok"))
+                    cur = rmin
+                    st = rand_request(rng, 1, timeout=5, unit=1)
+                    steps += [st, reply(good_reply(rng, st), unit=1)]
+                elif tok == "eof":
+                    steps.append({"op": "eof"})
+                    steps += wait(rmin)
+                elif tok == "garbage":
+                    steps.append(peer([9, 9, 9, 9, 9, 9, 9, 9]))
+                    steps += wait(rmin)
+                elif tok == "maxtimeouts":
+                    steps += [submit(7, 3, 1, 0, 1, (), 5), tick(5)]
+                    steps += wait(rmin)
+                elif tok == "disable":
+                    steps.append(cmd("disable"))
+                elif tok == "enable":
+                    steps.append(cmd("enable"))
+            scs.append(scenario(len(scs), steps, mode="task", retry=(rmin, rmax), max_timeouts=1,
+                                tag=f"c14-{rmin}-{rmax}-{pattern}"))
+    return scs
